@@ -29,6 +29,11 @@ ArgsOf(s) ==
     [] s = "a+a" -> <<A("file", "a.lua", <<>>), A("file", "./a.lua", <<>>)>>
     [] s = "src+b" -> <<A("dir", "src", <<"src">>), A("file", "src/b.lua", <<"src">>)>>
     [] s = "src+vendor" -> <<A("dir", "src", <<"src">>), A("dir", "src/vendor", <<"src", "vendor">>)>>
+    \* a file the default glob does not match, named explicitly next to the directory that holds it (both orders)
+    [] s = "src+notes" -> <<A("dir", "src", <<"src">>), A("file", "src/notes.txt", <<"src">>)>>
+    [] s = "dot+notes" -> <<A("dir", ".", <<>>), A("file", "src/notes.txt", <<"src">>)>>
+    [] s = "notes+dot" -> <<A("file", "src/notes.txt", <<"src">>), A("dir", ".", <<>>)>>
+    [] s = "notes+src" -> <<A("file", "src/notes.txt", <<"src">>), A("dir", "src", <<"src">>)>>
     [] s = "lib+src" -> <<A("dir", "lib", <<"lib">>), A("dir", "src", <<"src">>)>>
 
 PatSeqs == {<<>>} \cup {<<PatOf(a)>> : a \in Pats} \cup (IF MaxPats >= 2 THEN {<<PatOf(a), PatOf(b)>> : a \in Pats, b \in Pats} ELSE {})
